@@ -46,6 +46,8 @@ type UnitResult struct {
 	AssertsProved   int `json:"asserts_proved"`
 	AssertsByFacts  int `json:"asserts_by_path_facts"`
 	AssertsByGlobal int `json:"asserts_by_validity_under_assumptions"`
+	ValidityQueries int `json:"validity_queries"`
+	AssertsRefuted  int `json:"asserts_refuted"`
 	UnknownFeas     int `json:"unknown_feasibility"`
 	ReachedEnd      int `json:"reached_end"`
 
@@ -139,6 +141,7 @@ func (e *Engine) runInit(st *State) error {
 
 func (e *Engine) pushEntry(st *State, fn *ssa.Function) {
 	fi := e.info(fn)
+	e.funcs[fn.String()] = true
 	fr := &Frame{Fn: fn, Info: fi, Block: fn.Blocks[0], Env: make([]Value, fi.n), RetReg: -1}
 	st.Frames = append(st.Frames, fr)
 }
@@ -177,11 +180,19 @@ func RunUnit(ld *Loaded, harness string, cfg Config, workDir string, seed int, p
 		res.Error = "harness function not found: " + harness
 		return
 	}
-	st := NewState()
-	if err := e.runInit(st); err != nil {
-		res.Error = err.Error()
-		return
+	// package initialisers run once per worker process and package; every
+	// unit starts from a copy of the resulting state
+	e.infos = ld.infos
+	if ld.prelude == nil {
+		ps := NewState()
+		if err := e.runInit(ps); err != nil {
+			res.Error = err.Error()
+			return
+		}
+		ld.prelude = ps
 	}
+	st := ld.prelude.Clone()
+	st.Done, st.EndKind, st.NInstr = false, "", 0
 	initInstrs := res.Instrs
 	_ = initInstrs
 	e.pushEntry(st, fn)
